@@ -41,21 +41,50 @@ func checkFieldCount(rc *RunCtx, prop, file string, cols []OutCol, csv bool, r o
 		return true
 	}
 	want := colWidthSum(cols)
-	if len(r.raw) == want {
+	// a fixed-width record is a sequence of cells, one per column, each followed by one fill character; a cell is as wide as
+	// its column, or wider when the value does not fit (then it carries no padding). The line must be cut into exactly that
+	// many cells - a lost separator, a lost or an extra cell leaves no valid segmentation
+	if fixedWidthSegmentable(strings.ReplaceAll(r.raw, "C1 unstable", "C1_unstable"), cols, ' ') {
+		if len(r.raw) > want {
+			rc.Cov("fixed_width_overflow_lines", 1)
+		}
 		return true
 	}
-	// a longer line is legitimate only if a value did not fit its column
-	if len(r.raw) > want {
-		// text values may contain a blank ("C1 unstable"): count them as one token
-		toks := strings.Fields(strings.ReplaceAll(r.raw, "C1 unstable", "C1_unstable"))
-		over := true
-		if over && len(toks) <= len(cols) {
-			rc.Cov("fixed_width_overflow_lines", 1)
-			return true
-		}
-	}
-	rc.Violate(prop, "field_count", fmt.Sprintf("%s line %d is %d characters wide, %d columns of the configured widths need %d: %q", file, r.line, len(r.raw), len(cols), want, r.raw), 0, 0, nil)
+	rc.Violate(prop, "field_count", fmt.Sprintf("%s line %d (%d characters; %d columns of the configured widths need %d) cannot be cut into %d cells that are each followed by a fill character: %q", file, r.line, len(r.raw), len(cols), want, len(cols), r.raw), 0, 0, nil)
 	return false
+}
+
+// fixedWidthSegmentable: can the line be cut into len(cols) cells, cell i at least cols[i].Width characters wide and followed
+// by one fill character, a wider cell without fill characters at its ends or inside?
+func fixedWidthSegmentable(l string, cols []OutCol, fill byte) bool {
+	n := len(cols)
+	memo := map[[2]int]bool{}
+	var f func(i, pos int) bool
+	f = func(i, pos int) bool {
+		if i == n {
+			return pos == len(l)
+		}
+		k := [2]int{i, pos}
+		if v, ok := memo[k]; ok {
+			return v
+		}
+		res := false
+		w := cols[i].Width
+		if pos+w < len(l) && l[pos+w] == fill && f(i+1, pos+w+1) {
+			res = true
+		}
+		for L := w + 1; !res && pos+L < len(l) && L <= w+60; L++ {
+			if l[pos+L-1] == fill {
+				break // a wider cell holds one unpadded value: no fill character inside
+			}
+			if l[pos] != fill && l[pos+L] == fill && f(i+1, pos+L+1) {
+				res = true
+			}
+		}
+		memo[k] = res
+		return res
+	}
+	return f(0, 0)
 }
 
 func (m *monC05) Finish(rc *RunCtx) {
